@@ -379,6 +379,32 @@ func (w *World) Authority(msg sdk.Msg) (res *sdk.Result, err error) {
 	return res, err
 }
 
+// AuthorityRolledBack executes authority messages the way x/gov executes a passed proposal whose LATER message
+// fails: all of them on one branch of the state, which is then dropped. Committed state must be exactly what
+// it was, and nothing the node keeps in memory may remember the attempt. Runs on the replicas as well.
+func (w *World) AuthorityRolledBack(msgs ...sdk.Msg) (err error) {
+	defer func() {
+		if r := recover(); r != nil {
+			err = fmt.Errorf("panic in authority msg: %v\n%s", r, debug.Stack())
+		}
+	}()
+	ctx, _ := w.Ctx().CacheContext()
+	for _, msg := range msgs {
+		h := w.App.MsgServiceRouter().Handler(msg)
+		if h == nil {
+			return fmt.Errorf("no handler for %T", msg)
+		}
+		if _, e := h(ctx, msg); e != nil {
+			err = e
+			break
+		}
+	}
+	for _, m := range w.Mirrors {
+		m.AuthorityRolledBack(msgs...)
+	}
+	return err
+}
+
 // SyncSeq re-reads account sequences from committed state.
 func (w *World) SyncSeq() {
 	ctx := w.Ctx()
